@@ -57,7 +57,8 @@ var _ = config.Config{}
 func H_C07_crash_resume() {
 	ha := []string{"m", "r1", "r2"}
 	cfg := verifConfig("r2")
-	cfg.SemiSync = true
+	// semi-synchronous (w = 1) or asynchronous cluster
+	cfg.SemiSync = verifnd.Choose("cfg.semisync", verifnd.Param("modes", 2)) == 0
 	cfg.FailoverDelay = 0
 	cfg.FailoverCooldown = 0
 	cfg.InactivationDelay = 0
@@ -69,7 +70,17 @@ func H_C07_crash_resume() {
 	// ---- GTIDs of a semi-sync cluster: replicas hold subsets of the master's set ----
 	bits := uint64(1)<<uint(verifnd.Param("gtid_bits", 3)) - 1
 	ms := w.fleet.Servers["m"]
-	ms.OwnBits = bits
+	// transaction universe: m originates t0..t19 (the low gtid_bits of them exist before the
+	// request, the rest are client commits during the history), r1 t20..t39, r2 t40..t59
+	ms.OwnBits = 1<<20 - 1
+	w.fleet.Servers["r1"].OwnBits = (1<<20 - 1) << 20
+	w.fleet.Servers["r2"].OwnBits = (1<<20 - 1) << 40
+	if !cfg.SemiSync {
+		for _, h := range ha {
+			s := w.fleet.Servers[h]
+			s.SSMaster, s.SSSlave, s.WaitCount = false, false, 0
+		}
+	}
 	ms.Executed = 1 | (uint64(verifnd.Byte("gtid.exec.m")) & bits)
 	acked := uint64(1)
 	for _, h := range ha[1:] {
@@ -78,8 +89,10 @@ func H_C07_crash_resume() {
 		s.Executed = (uint64(verifnd.Byte("gtid.exec."+h)) & s.Retrieved) | 1
 		acked |= s.Retrieved
 	}
-	// every committed transaction was acknowledged by at least one replica (w = 1)
-	verifnd.Assume(ms.Executed&^acked == 0)
+	if cfg.SemiSync {
+		// every committed transaction was acknowledged by at least one replica (w = 1)
+		verifnd.Assume(ms.Executed&^acked == 0)
+	}
 	// replicas of one source receive its binlog in order: the master's set and every retrieved set
 	// are prefixes t0..tk of the commit order (so they are totally ordered by inclusion — no split brain)
 	verifnd.Assume((ms.Executed+1)&ms.Executed == 0)
@@ -102,8 +115,56 @@ func H_C07_crash_resume() {
 	case 2: // manual switchover to r1
 		sw.To, sw.Cause, sw.MasterTransition = "r1", CauseManual, SwitchoverTransition
 	}
+	if !cfg.SemiSync && kind != 0 {
+		// asynchronous cluster with a live master: everything it committed was acknowledged to
+		// its clients and a switchover (unlike a failover) must keep it
+		acked |= ms.Executed
+	}
 	w.dcs.seed(pathCurrentSwitch, sw)
 	verifPublishHealth(w)
+
+	// ---- clients ----
+	// client.load = 1: at every environment call of either manager every reachable writable
+	// server commits one more transaction of its own (up to 17-20 per server). It is
+	// acknowledged to the client at once on a server without semi-sync, and on a semi-sync
+	// master only when a connected semi-sync replica has received it.
+	load := verifnd.Choose("client.load", verifnd.Param("loads", 2)) == 1
+	next := map[string]uint{"m": uint(verifnd.Param("gtid_bits", 3)), "r1": 20, "r2": 40}
+	last := map[string]uint{"m": 20, "r1": 40, "r2": 60}
+	client := func() {
+		if !load {
+			return
+		}
+		for _, h := range ha {
+			s := w.fleet.Servers[h]
+			if !s.Alive || s.ReadOnly || s.Offline || next[h] >= last[h] {
+				continue
+			}
+			t := uint64(1) << next[h]
+			next[h]++
+			s.Executed |= t
+			if !s.SSMaster || s.WaitCount == 0 {
+				acked |= t
+				verifnd.Reach("C07.client.commit.async")
+				continue
+			}
+			got := false
+			for _, rh := range ha {
+				r := w.fleet.Servers[rh]
+				if rh != h && r.Alive && r.IsReplica && r.Source == h && r.IORunning && r.SSSlave {
+					r.Retrieved |= t
+					got = true
+				}
+			}
+			if got {
+				acked |= t
+				verifnd.Reach("C07.client.commit.acked")
+			} else {
+				s.WaitingAck = true
+				verifnd.Reach("C07.client.commit.waiting")
+			}
+		}
+	}
 	VerifHook_App_optimizationPhase = func(app *App, activeNodes []string, switchover *Switchover, oldMaster string, clusterState map[string]*nodestate.NodeState) error {
 		return nil
 	}
@@ -113,6 +174,7 @@ func H_C07_crash_resume() {
 	calls := 0
 	crashed := false
 	tick := func() {
+		client()
 		calls++
 		if crashAt != 0 && calls == crashAt {
 			crashed = true
@@ -131,7 +193,8 @@ func H_C07_crash_resume() {
 		}()
 		w.app.stateManager()
 	}()
-	w.fleet.Before, w.dcs.Before = nil, nil
+	w.fleet.Before = func(host, stmt string) { client() }
+	w.dcs.Before = func(op, path string) { client() }
 	if crashAt != 0 && !crashed {
 		// fewer environment calls than the chosen crash point on this path: covered by crash.at = 0
 		verifnd.Assume(false)
@@ -160,6 +223,13 @@ func H_C07_crash_resume() {
 	}
 	if !quiet {
 		verifnd.Reach("C07.not-quiescent")
+	}
+	w.fleet.Before, w.dcs.Before = nil, nil
+	if load {
+		verifnd.Fact("client_load", "yes")
+	}
+	if !cfg.SemiSync {
+		verifnd.Fact("semisync", "off")
 	}
 	verifnd.Assert(quiet, "resume.progress")
 	if !quiet {
